@@ -247,6 +247,9 @@ class TUFacts:
                 o = json.loads(line)
                 r = o["rec"]
                 if r == "fn":
+                    if o.get("body") is not None:
+                        from . import normal
+                        normal.normalise(o["body"])
                     fn = Fn(o, self, tu)
                     self.fns.append(fn)
                     self.by_id[o["id"]] = fn
